@@ -75,6 +75,9 @@ JudgeEnt(ev) ==
     /\ (r = "panic" \/ r = "none" \/ (r = "true") = Entails(ev.pol, ev.bs[q])
         \/ Report("C18", "entails_wrong", ev, [b |-> ev.bs[q], lib |-> r]))
     /\ (r # "none" \/ Report("C18", "entails_none_below_limit", ev, q))
+    \* L2: the case-split algorithm (Normalize.tla, proved equal to truth-table implication by MC_Normalize)
+    /\ (r \in {"panic", "none"} \/ (r = "true") = EntailsAlg(ev.pol, ev.bs[q])
+        \/ Report("INFO", "drift_l2_entails", ev, q))
 
 JudgeEvent(ev) ==
   CASE ev.kind = "sem" -> JudgeSem(ev)
